@@ -1908,6 +1908,14 @@ impl Compiler {
                         };
                         self.compile_import_item(import_register, item.item, wildcard_import, ctx)?;
 
+                        // Should we export the imported item?
+                        if let Some(name) = maybe_as
+                            && self.settings.export_top_level_ids
+                            && self.frame_stack.len() == 1
+                        {
+                            self.compile_value_export(name, import_register)?;
+                        }
+
                         if result.register.is_some() {
                             imported.push(import_register);
                         }
@@ -1981,6 +1989,14 @@ impl Compiler {
                                 &string.contents,
                                 ctx,
                             )?;
+
+                            // Should we export the imported item?
+                            if let Some(name) = maybe_as
+                                && self.settings.export_top_level_ids
+                                && self.frame_stack.len() == 1
+                            {
+                                self.compile_value_export(name, import_register)?;
+                            }
 
                             if result.register.is_some() {
                                 imported.push(import_register);
